@@ -320,6 +320,17 @@ func (e *Engine) havocArgs(st *State, args []Val) {
 					e.heapSet(st, name, sort, fmt.Sprintf("(store %s %s %s)", h, a.T, e.S.Fresh("hv_box", e.sortOf(el))))
 				}
 			case *types.Slice:
+				// a slice over an array this function filled itself (variadic arguments): the callee also
+				// reaches whatever the stored elements point to
+				if strings.HasPrefix(a.T, "(mk_slice ref_") {
+					ref := a.T[len("(mk_slice "):]
+					if i := strings.IndexByte(ref, ' '); i > 0 {
+						ref = ref[:i]
+						if elems, ok := e.smallArr[ref]; ok {
+							e.havocArgs(st, elems)
+						}
+					}
+				}
 				name, sort := e.arrMapName(u.Elem())
 				h := e.heapGet(st, name, sort)
 				na := e.S.Fresh("hv_arr", fmt.Sprintf("(Array %s %s)", e.S.IntSort(), e.sortOf(u.Elem())))
